@@ -28,4 +28,12 @@ example : (coutputs [] (CState.fresh Registry.empty) bothOrdersHistory).drop 3
        .ok (.ans (.descValue ⟨[], []⟩ 2))] := by decide +kernel
 example : (crun [] (CState.fresh Registry.empty) bothOrdersHistory).dcache.length = 5 := by decide +kernel
 
+/-- the repeated sum answers the same both times (201/100 m.m), the cached first operand still
+says cm for its second category -/
+example : (coutputs [] (CState.fresh Registry.empty) repeatedSumHistory).drop 4
+    = [.ok (.ans (.descValue ⟨[(7, 2, 1), (5, 2, 1)], [(1, 2)]⟩ (201 / 100))),
+       .ok (.ans (.descValue ⟨[(7, 2, 1), (5, 2, 1)], [(1, 2)]⟩ (201 / 100))),
+       .ok (.ans (.descValue ⟨[(7, 2, 1), (5, 2, 1)], [(1, 2)]⟩ (-95 / 100))),
+       .ok (.ans (.desc ⟨[(7, 2, 1), (5, 3, 1)], [(1, 2)]⟩))] := by decide +kernel
+
 end Barril.Reg
